@@ -58,7 +58,7 @@ func (rw *RealWatcher) EventChannel() chan fsnotify.Event {
 
 // IsComplete returns true if a given WorkState indicates the job is finished.
 func IsComplete(workState int) bool {
-	return workState == WorkStateSucceeded || workState == WorkStateFailed
+	return workState == WorkStateSucceeded || workState == WorkStateFailed || workState == WorkStateCanceled
 }
 
 // WorkStateToString returns a string representation of a WorkState.
